@@ -8,7 +8,7 @@
   the canonical form of a value (`key`, which determines `=` and `<`), the order in which members
   are printed, the result of `orderby` without ties — is the same for every such order.
 -/
-import Arrai.C07.Lemmas
+import Arrai.C07.Nested
 
 namespace Arrai.C07.Theorems
 open Arrai.C06 Arrai.C07
@@ -42,11 +42,124 @@ theorem orderby_ties_only (keyf : Rep → Rep) (xs ys : List Rep) (hp : xs.Perm 
     (C06.Impl.orderBy keyf xs).map (fun x => key (keyf x)) = (C06.Impl.orderBy keyf ys).map (fun x => key (keyf x)) :=
   orderBy_keys_perm_invariant keyf hp
 
+/-! ### the set builder -/
+
+/-- FULL statement (not proved in this round): the set builder is order-independent on every list of values that
+does not superimpose two sugar tuples at one index -/
+def build_order_independent_full : Prop :=
+  ∀ xs ys : List Rep, Impl.superimposedL xs = false → KP xs ys →
+    key (C06.Impl.build xs) = key (C06.Impl.build ys)
+
+/-- proved part: values that fall into the generic bucket of `SetBuilder` (numbers, sets of every representation,
+the empty tuple): the canonical form of the result depends only on the multiset of canonical forms added -/
+theorem build_order_independent_partial (xs ys : List Rep) (hx : allGeneric xs) (hy : allGeneric ys) (h : KP xs ys) :
+    key (C06.Impl.build xs) = key (C06.Impl.build ys) := build_order_independent_generic hx hy h
+
+/-- the hypotheses of the partial theorem are satisfiable by a non-trivial input: `{1, {2}, 'a', ()}` in two orders -/
+example : allGeneric [.num 1, .generic [.num 2], .str [97] 0, .gtuple []] ∧
+    KP [.num 1, .generic [.num 2], .str [97] 0, .gtuple []] [.gtuple [], .str [97] 0, .num 1, .generic [.num 2]] := by
+  refine ⟨?_, ?_⟩
+  · intro x hx
+    simp only [List.mem_cons, List.not_mem_nil, or_false] at hx
+    rcases hx with rfl | rfl | rfl | rfl <;> rfl
+  · apply KP.of_perm
+    -- [a, b, c, d] ~ [d, c, a, b]
+    have h1 : [Rep.num 1, Rep.generic [Rep.num 2], Rep.str [97] 0, Rep.gtuple []].Perm
+        ([Rep.gtuple [], Rep.str [97] 0] ++ [Rep.num 1, Rep.generic [Rep.num 2]]) :=
+      (List.perm_append_comm (l₁ := [Rep.num 1, Rep.generic [Rep.num 2]]) (l₂ := [Rep.str [97] 0, Rep.gtuple []])).trans
+        ((List.Perm.swap _ _ _).append_right _)
+    exact h1
+
+/-- without the admissibility hypothesis the statement is false (see `superimposed_order_dependent`) -/
+theorem build_order_dependent_when_superimposed :
+    ¬ (∀ xs ys : List Rep, xs.Perm ys → key (C06.Impl.build xs) = key (C06.Impl.build ys)) := by
+  intro h
+  have := h [.charT 0 97, .charT 0 98] [.charT 0 98, .charT 0 97] (List.Perm.swap _ _ _)
+  have hne : C06.Impl.equal (C06.Impl.build [.charT 0 97, .charT 0 98]) (C06.Impl.build [.charT 0 98, .charT 0 97]) = false := by
+    decide
+  rw [C06.Impl.equal, this, (K.beq_iff _ _).2 rfl] at hne
+  cases hne
+
+/-! ### programs -/
+
+/-- C07 for single-operator programs over literal operands (any operator of the fragment: `|`, `&`, `&~`, `=>`, `where`,
+`orderby`, `with`, `without`, `count`, `{x}`): whatever order the process enumerates the operands in, the result has
+the same canonical form (hence the same printed text, `=` and `<` behaviour) or is the same error.
+Admissible (`Adm1`): the values handed to the set builder fall into the generic bucket; `orderby` keys do not tie. -/
+theorem C07_partial (e : Ex) (π₁ π₂ : EnumOrder) (h₁ : PermValued π₁) (h₂ : PermValued π₂) (ha : Adm1 e) :
+    keyRes (Impl.evalUnder π₁ e) = keyRes (Impl.evalUnder π₂ e) :=
+  evalUnder_order_independent_1 e π₁ π₂ h₁ h₂ ha
+
+/-- `Adm1` and `PermValued` are satisfiable non-trivially: `{1, {2}, 'a'} | {(), 3}` under the reversing order -/
+example : Adm1 (.union (.lit "{1, {2}, 'a'}" (.generic [.num 1, .generic [.num 2], .str [97] 0]))
+                       (.lit "{(), 3}" (.generic [.gtuple [], .num 3]))) ∧ PermValued List.reverse := by
+  refine ⟨?_, fun l => List.reverse_perm l⟩
+  intro x hx
+  simp only [members, members1, List.cons_append, List.nil_append, List.mem_cons, List.not_mem_nil, or_false] at hx
+  rcases hx with rfl | rfl | rfl | rfl | rfl <;> rfl
+
+/-- C07 for NESTED programs of the generic fragment (`GenEx`): literals are sets of generic-bucket values (numbers,
+sets of any representation, the empty tuple), combined to any depth with `|`, `&`, `&~`, `where`, `with`, `without`, `{x}`
+and `=>` with an element function that yields such values again (`.`, a constant, `[.]`, `{.}`).  Every enumeration order
+yields a value (never an error) with the same canonical form. -/
+theorem C07_nested_partial (e : Ex) (he : GenEx e = true) (π₁ π₂ : EnumOrder) (h₁ : PermValued π₁) (h₂ : PermValued π₂) :
+    keyRes (Impl.evalUnder π₁ e) = keyRes (Impl.evalUnder π₂ e) ∧ (∃ r, Impl.evalUnder π₁ e = .ok r) := by
+  obtain ⟨r₁, r₂, e₁, e₂, _, _, hk⟩ := nested_order_independent π₁ π₂ h₁ h₂ e he
+  exact ⟨by rw [e₁, e₂]; simp [keyRes, hk], r₁, e₁⟩
+
+/-- `GenEx` is satisfiable by a non-trivial nested program:
+`(({1, {2}, 'a'} | {(), 3}) => [.]) &~ ({[1]} with 'b') where . != 0` -/
+example : GenEx (.filter (.diff (.map (.union (.lit "{1, {2}, 'a'}" (.generic [.num 1, .generic [.num 2], .str [97] 0]))
+                                             (.lit "{(), 3}" (.generic [.gtuple [], .num 3]))) .arr1)
+                              (.with_ (.lit "{[1]}" (.generic [.array [some (.num 1)] 0])) (.lit "'b'" (.str [98] 0))))
+                       (.neNum 0)) = true := by decide
+
+/-! ### printed text -/
+
+/-- FULL statement (not proved in this round): the printed text is a function of the canonical form -/
+def printed_text_function_of_key_full : Prop := ∀ a b : Rep, key a = key b → Impl.repr a = Impl.repr b
+
+/-- proved part: values without a dictionary, relation or union set anywhere inside (numbers, all tuples and wrappers,
+strings, byte arrays, arrays, generic sets, nested arbitrarily): two representations with the same canonical form —
+in particular the same value enumerated in two different orders at any depth — print the same text -/
+theorem printed_text_function_of_key_partial (a b : Rep) (sa : simple a = true) (sb : simple b = true)
+    (hk : key a = key b) : Impl.repr a = Impl.repr b := repr_congr a b sa sb hk
+
+/-- non-trivial instance: `{[1, {2, 3}], 'a', (x: {4, 5})}` with every enumeration reversed -/
+example :
+    simple (.generic [.array [some (.num 1), some (.generic [.num 2, .num 3])] 0, .str [97] 0,
+      .gtuple [("x", .generic [.num 4, .num 5])]]) = true ∧
+    key (.generic [.array [some (.num 1), some (.generic [.num 2, .num 3])] 0, .str [97] 0,
+      .gtuple [("x", .generic [.num 4, .num 5])]]) =
+    key (.generic [.gtuple [("x", .generic [.num 5, .num 4])], .str [97] 0,
+      .array [some (.num 1), some (.generic [.num 3, .num 2])] 0]) := by
+  refine ⟨by decide, ?_⟩
+  have h : C06.Impl.equal
+      (.generic [.array [some (.num 1), some (.generic [.num 2, .num 3])] 0, .str [97] 0,
+        .gtuple [("x", .generic [.num 4, .num 5])]])
+      (.generic [.gtuple [("x", .generic [.num 5, .num 4])], .str [97] 0,
+        .array [some (.num 1), some (.generic [.num 3, .num 2])] 0]) = true := by decide
+  simpa [C06.Impl.equal, K.beq_iff] using h
+
+/-- corollary for admissible single-operator programs: the same printed text under every enumeration order -/
+theorem C07_partial_printed (e : Ex) (π₁ π₂ : EnumOrder) (h₁ : PermValued π₁) (h₂ : PermValued π₂) (ha : Adm1 e)
+    (r₁ r₂ : Rep) (e₁ : Impl.evalUnder π₁ e = .ok r₁) (e₂ : Impl.evalUnder π₂ e = .ok r₂)
+    (s₁ : simple r₁ = true) (s₂ : simple r₂ = true) : Impl.repr r₁ = Impl.repr r₂ := by
+  have h := C07_partial e π₁ π₂ h₁ h₂ ha
+  rw [e₁, e₂] at h
+  simp only [keyRes, Option.some.injEq] at h
+  exact repr_congr r₁ r₂ s₁ s₂ h
+
+/-- FULL statement (not proved in this round): every program of the fragment, nested, all admissible member lists -/
+def C07_full : Prop :=
+  ∀ (e : Ex) (π₁ π₂ : EnumOrder), PermValued π₁ → PermValued π₂ →
+    keyRes (Impl.evalUnder π₁ e) = keyRes (Impl.evalUnder π₂ e)
+
 /-- `KF-superimposed`: genuine order dependence. Two enumeration orders of the same two members build different
 strings (`'b'` resp. `'a'`): the set builder keeps the tuple it sees last. -/
 theorem superimposed_order_dependent :
     C06.Impl.equal (C06.Impl.build [.charT 0 97, .charT 0 98]) (C06.Impl.build [.charT 0 98, .charT 0 97]) = false ∧
     C06.Impl.build [.charT 0 97, .charT 0 98] = .str [98] 0 ∧
-    C06.Impl.build [.charT 0 98, .charT 0 97] = .str [97] 0 := by decide
+    C06.Impl.build [.charT 0 98, .charT 0 97] = .str [97] 0 := ⟨by decide, by rfl, by rfl⟩
 
 end Arrai.C07.Theorems
